@@ -87,6 +87,50 @@ fn main() {
             println!("REPLAY verdict={}", if bad { "VIOLATED" } else { "ok" });
             std::process::exit(if bad { 1 } else { 0 });
         }
+        "catalogue" | "dump" => {
+            // spverif catalogue --seed S --count K --out FILE [--only SUBSTR] [--threads N]
+            // spverif dump --seed S --count K --op NAME --chunk I
+            let mut seed = 1u64;
+            let mut count = 4096u64;
+            let mut out = String::from("/tmp/spverif-catalogue.json");
+            let mut only: Option<String> = None;
+            let mut opname = String::new();
+            let mut chunk = 0usize;
+            let mut threads = std::thread::available_parallelism().map(|n| n.get()).unwrap_or(8);
+            let mut i = 2;
+            while i + 1 < args.len() {
+                match args[i].as_str() {
+                    "--seed" => seed = args[i + 1].parse().expect("seed"),
+                    "--count" => count = args[i + 1].parse().expect("count"),
+                    "--out" => out = args[i + 1].clone(),
+                    "--only" => only = Some(args[i + 1].clone()),
+                    "--op" => opname = args[i + 1].clone(),
+                    "--chunk" => chunk = args[i + 1].parse().expect("chunk"),
+                    "--threads" => threads = args[i + 1].parse().expect("threads"),
+                    _ => usage(),
+                }
+                i += 2;
+            }
+            let reg = Registry::build();
+            if args[1] == "dump" {
+                mon::catalogue::dump(&reg, seed, count, &opname, chunk);
+                return;
+            }
+            {
+                let names: Vec<String> = reg.ops.iter().map(|o| o.name.clone()).collect();
+                let arity: Vec<usize> = reg.ops.iter().map(|o| o.arity()).collect();
+                *rt::HANG_HANDLER.lock().unwrap() = Some(std::sync::Arc::new(Box::new(move |h: &rt::HangInfo| {
+                    let (name, ar) = if h.op < names.len() { (names[h.op].clone(), arity[h.op]) } else { (format!("special#{}", h.op), 3) };
+                    let inputs = [h.a, h.b, h.c];
+                    println!(
+                        "HANG op={} inputs={}",
+                        name,
+                        inputs[..ar].iter().map(|v| format!("0x{:x}", v)).collect::<Vec<_>>().join(",")
+                    );
+                })));
+            }
+            mon::catalogue::run(&reg, seed, count, threads, &out, only.as_deref());
+        }
         "run" => {
             if args.len() < 3 {
                 usage();
